@@ -203,9 +203,30 @@ def replay(chk, path):
     r = ordfam.replay_one(chk, path, "C10")
     if r is not None:
         return r
-    log("frequency cell: %s" % json.dumps(sc))
-    log("re-run ./check C10 with VERIF_SEED=%s to re-measure on the current tree" % sc.get("seed"))
-    return 1
+    c = sc.get("cell") or {}
+    if sc.get("kind") != "ord-freq" or "a" not in c:
+        log("frequency cell: %s" % json.dumps(sc))
+        log("re-run ./check C10 with VERIF_SEED=%s to re-measure on the current tree" % sc.get("seed"))
+        return 1
+    # the cell is measured again (same seed, same number of trials) and judged by the same rule
+    build_harness("om")
+    cell = dict(name=c.get("cell", "replay"), a=c["a"], b=c["b"], l=c["l"], m=c["m"], trials=c["trials"])
+    if c.get("hasher") and c["hasher"] != "fnv":
+        cell["hasher"] = c["hasher"]
+    if c.get("labels") and c["labels"] != "random":
+        cell["elems"] = c["labels"]
+    cin = os.path.join(chk.wd, "replay_cells.json")
+    json.dump(dict(cells=[cell]), open(cin, "w"))
+    fout = os.path.join(chk.wd, "replay_freq.json")
+    harness("om", ["freq", "in=" + cin, "out=" + fout, "seed=%d" % sc.get("seed", chk.seed)], timeout=3000)
+    f = json.load(open(fout))["cells"][0]
+    n, mean, var = stats.hist_moments(f["hist"], cell["m"])
+    eps = stats.bernstein_radius(n, var, DELTA)
+    log("cell %s: oracle %.6f, mean %.6f +- %.6f over %d trials, panics %s" % (cell["name"], c["oracle"], mean, eps, n, f.get("panics")))
+    bad = bool(f.get("panics")) or abs(mean - c["oracle"]) > eps
+    if bad:
+        log("VIOLATION property=C10 replay=%s" % path)
+    return 1 if bad else 0
 
 
 def selftest(chk):
